@@ -1,6 +1,6 @@
 #!/bin/sh
 # regenerate the committed quick-tier evidence of every check against /repo (must be clean) and validate it
-cd /verif
+cd "$(dirname "$0")/.." || exit 2
 [ -z "$(git -C /repo status --porcelain --untracked-files=no)" ] || { echo "/repo not clean"; exit 2; }
 rc=0
 for p in C01 C02 C03 C04 C05 C06 C07 C08 C09 C10 C11 C12 C13 C14 C15 C16 C17 C18 C19 C20; do
